@@ -176,7 +176,9 @@ pub fn eval_variable(
     query: &mut expr::EvalVariableQuery)
     -> Result<expr::Value, ()>
 {
-    if query.hierarchy_level == 0
+    // Only a bare name can be a built-in: `pc.x` is the symbol `x` under `pc`
+    if query.hierarchy_level == 0 &&
+        query.hierarchy.len() == 1
     {
         let maybe_builtin = eval_builtin_symbol(
             decls,
@@ -237,7 +239,9 @@ pub fn eval_variable_simple(
     query: &mut expr::EvalVariableQuery)
     -> Result<expr::Value, ()>
 {
-    if query.hierarchy_level == 0
+    // Only a bare name can be a built-in: `pc.x` is the symbol `x` under `pc`
+    if query.hierarchy_level == 0 &&
+        query.hierarchy.len() == 1
     {
         match query.hierarchy[0].as_ref()
         {
@@ -267,7 +271,9 @@ pub fn eval_variable_certain(
     query: &mut expr::EvalVariableQuery)
     -> Result<expr::Value, ()>
 {
-    if query.hierarchy_level == 0
+    // Only a bare name can be a built-in: `pc.x` is the symbol `x` under `pc`
+    if query.hierarchy_level == 0 &&
+        query.hierarchy.len() == 1
     {
         match query.hierarchy[0].as_ref()
         {
